@@ -358,6 +358,7 @@ type pqPlan struct {
 	progs   [][]pqIn
 	yield   int
 	procs   int
+	notify  *notifySpec // c34_notify_test.go: status channels registered on the TransactionState (kind 1 only)
 }
 
 func genPQPlan(r *vcommon.Rand, maxTotal int, search bool) pqPlan {
@@ -425,10 +426,25 @@ func runPQPlanOnce(c *vcommon.Case, p pqPlan, timed bool, attempt int) porcupine
 			total++
 		}
 	}
-	transaction.VerifSetYield(p.yield)
+	var ls *listeners
+	if p.notify != nil {
+		ls = startListeners(api.(statePQ).s, p.notify, &clk, timed)
+	}
+	setPQYield(p.yield)
 	var h history
-	withProcs(p.procs, func() { h = runClients(progs, &clk, timed) })
-	transaction.VerifSetYield(0)
+	withProcs(p.procs, func() {
+		if ls != nil {
+			h = runClientsWatched(progs, &clk, timed, ls.watch())
+		} else {
+			h = runClients(progs, &clk, timed)
+		}
+	})
+	setPQYield(0)
+	if ls != nil && !ls.finish(c, api.Name(), h, func() map[string]any {
+		return map[string]any{"prefill": p.prefill, "programs": p.progs, "yield_pct": p.yield, "gomaxprocs": p.procs, "timed": timed}
+	}) {
+		return porcupine.Ok
+	}
 	if h.Hung {
 		c.Inconclusive(fmt.Sprintf("%s: clients still running after %s", api.Name(), joinTimeout))
 		return porcupine.Ok
@@ -488,6 +504,21 @@ func runPQPlanOnce(c *vcommon.Case, p pqPlan, timed bool, attempt int) porcupine
 			return porcupine.Ok
 		}
 	}
+	if ls != nil {
+		calls, totalCalls := map[uint32]int{}, 0
+		for _, o := range h.Ops { // the listeners are registered after the prefill
+			if in := o.Input.(pqIn); in.Kind == pqPush {
+				calls[in.ID]++
+				totalCalls++
+			}
+		}
+		ls.account(c, calls, totalCalls, transaction.Ready, timed, h.Ops)
+		if timed {
+			c.Count("notify_lin_histories", 1)
+		} else {
+			c.Count("notify_race_workloads", 1)
+		}
+	}
 	if !timed {
 		c.Count("race_workload_histories", 1)
 		c.Count("race_workload_ops", total)
@@ -516,6 +547,9 @@ func runPQPlanOnce(c *vcommon.Case, p pqPlan, timed bool, attempt int) porcupine
 	// interleaving fingerprint: client ids in call order + kinds
 	var sb strings.Builder
 	fmt.Fprintf(&sb, "%d|", p.kind)
+	if p.notify != nil {
+		sb.WriteString(p.notify.sig())
+	}
 	for _, ln := range render(h.Ops, func(in, out interface{}) string { return pqKindName[in.(pqIn).Kind][:2] }) {
 		sb.WriteString(ln[:strings.Index(ln, " ")])
 		sb.WriteString(ln[strings.LastIndex(ln, " "):])
@@ -790,4 +824,7 @@ func TestVerifC34(t *testing.T) {
 		}
 		runPQPlan(c, p, false)
 	})
+
+	// notifier variant (c34_notify_test.go): the same workloads with registered status channels
+	c34NotifyGroups(r)
 }
